@@ -87,3 +87,5 @@ pub fn thread_tag() -> i64 {
 
 // ---- re-exports of per-component hooks (each defined next to the code it exposes) ----
 pub use crate::util::rust_util::rev_group::verif_groups;
+// C25 (family "header"): side-metadata sanity predicate and spec-set check.
+pub use crate::util::metadata::side_metadata::verif_sanity_hooks;
